@@ -662,7 +662,8 @@ class C07(core.Check):
                 maxrow = rng.choice([1, 2, 3, 4, 5, 6, 8])
             m = len(cur)
             if x < 0.45:
-                a = ["key", rng.choice(self.KEYS[:6] * 3 + self.KEYS[6:])]
+                # characters would change the row labels of a real Edit: cursor keys only there
+                a = ["key", rng.choice(self.KEYS[:6] * 3 + (self.KEYS[6:] if kind == "item" else ["left", "right", "right"]))]
             elif x < 0.57:
                 a = ["mouse", rng.choice([1, 1, 1, 4, 5, 2]), rng.randrange(maxrow)]
             elif x < 0.67:
